@@ -14,8 +14,16 @@ def _text(req):
 
 
 def nontrivial(req, obs):
-    if req.startswith("C10.emit"):
-        return not obs.startswith("!")
+    if req.startswith("C10.emit") or req.startswith("C10.fmt"):
+        return not obs.startswith("!") and obs != ""
+    if req.startswith("C10.pp"):
+        # tokens from at least two files (an included file, a define or a `##` result)
+        m = re.search(r" from=(\S+)", obs)
+        return bool(m) and m.group(1).count(",") >= 1
+    if req.startswith("C10.loc"):
+        return obs.count(",") >= 3
+    if req.startswith("C10.diag"):
+        return obs != "ok" and ": error: " in obs
     # at least three tokens, or a numeric literal
     return obs.count(";") >= 2 or any(k in obs for k in NUMERIC)
 
@@ -23,6 +31,13 @@ def nontrivial(req, obs):
 def finding_key(req, obs, detail):
     """known defects are keyed by call site, everything else by the exact request"""
     d = detail or ""
+    # the one single-precision value whose shortest decimal (7.038531e-26) lies so close to the midpoint of two
+    # singles that its nearest double IS that midpoint: read back through the double it becomes the neighbour
+    if re.search(r"\b[19]5ae43fd\b", d) and re.search(r"\b15ae43fe\b", d) and "07038531" in d and \
+            (d.startswith("FAIL:emit Float") or d.startswith("FAIL:fmt Float")):
+        return "formatter.rs format_literal: single 0x15ae43fd printed with f32 Display digits (7.038531e-26) reads back as 0x15ae43fe"
+    if re.match(r"FAIL:panic (\S*/)?formatter/src/formatter\.rs:\d+: invalid msl$", d):
+        return "panic formatter/src/formatter.rs fn write_infinity_f64: invalid msl"
     if "as_ptr_range" in d:
         # which `end_of_stream()` produced the `&[]`: find the start of the failing token
         ends = re.findall(r" (\d+)(?:;| !|$)", obs.split(" !")[0] + ";") if obs.split(" !")[0] else []
@@ -95,12 +110,23 @@ def search(ctx):
               "1.7976931348623158e308", "1.7976931348623159e308", "3.4028235677973366e38f", "1.00000005960464478f",
               "9007199254740993.0", "9007199254740993.0f", "16777217.0f", "1e400", "1e-400", "1.#INF", "0.#INF"]:
         add(t)
+    # printing: every arm of format_literal / generate_literal on both generators
+    lits = ["0", "7", "0x10", "017", "4294967295u", "1u", "0.5", "0.5f", "0.5h", "0.5L", "2.0", "2.0f", "2.0h", "2.0L",
+            "1e30", "1e30f", "1e30h", "1e30L", "0.0", "0.0f", "1.#INF", "1.#INFf", "1.#INFh", "1.#INFL",
+            "3.4028235e38f", "9223372036854775808.0", "9223372036854775808.0f", "7.038530691851209e-26f", "1e-45f"]
+    for tgt in ("dx", "msl", "vk"):
+        for ctx in ("stmt", "neg", "init", "incl", "def"):
+            for l in lits:
+                out.append("C10.emit\t%s.%s\t%s" % (tgt, ctx, l))
+        for l in ["5", "0x10u", "017", "2147483647", "2147483648"]:
+            for ctx in ("arr", "enumv", "enumcast", "targ", "initneg", "paste"):
+                out.append("C10.emit\t%s.%s\t%s" % (tgt, ctx, l))
     return out
 
 
 SPEC = {
     "id": "C10",
-    "gens": ["LexTables"],
+    "gens": ["LexTables", "LitFormatTables", "SourceMapTables"],
     "lean_modules": ["RsslVerif.Thm.C10"],
     "theorems": [T + n for n in [
         "token_progress", "token_error_in_input", "token_no_panic", "spans_tile", "reemit_reproduces_input",
@@ -108,7 +134,10 @@ SPEC = {
         "literalIntWith_closed", "int_value_exact", "int_overflow_rejected", "int_rejected_only_when_too_large",
         "literalInt_radix", "token_numeric_dispatch", "float_parts_shape_as_modelled", "lex_float_nearest", "nearest64_total", "nearest64_correct", "nearest64_zero",
         "nearest_correct_partial", "nearest_correct", "nearest_monotone", "nearest64_monotone",
-        "nearest_exact_on_representable"]],
+        "nearest_exact_on_representable",
+        "literal_tables_as_modelled", "emit_int_exact", "emit_value_exact", "emit_whole_value_exact",
+        "emit_infinity_exact", "emit_negative_exact", "emit_f32_double_rounding_witness",
+        "multi_file_spans_in_file", "multi_file_error_in_file"]],
     "harness": "c10",
     "nontrivial": nontrivial,
     "finding_key": finding_key,
@@ -118,24 +147,46 @@ SPEC = {
                   "proved, for every byte string, to produce tokens whose spans tile the file in order with no empty "
                   "token except the synthetic final endline, so that the slices re-emit the file; every diagnostic "
                   "offset lies in [0,|file|]; every step consumes at least one byte; no panic site is reachable in "
-                  "debug or release builds. Integer literals (full): an accepted literal denotes exactly the "
-                  "positional value of its maximal digit run, which fits the payload type; a run >= 2^64, or >= 2^63 "
-                  "with suffix l, or >= 2^32 with suffix u, is rejected with IntegerLiteralTooLarge at its first digit, and only then. Float "
-                  "literals (full): token bits = narrowOnce(suffix, nearest64(decimal text)), and nearest64 / "
-                  "nearestRat (exact Nat arithmetic) are proved to be IEEE 754 round-to-nearest-ties-to-even "
-                  "(IsNearestEven: ulp of x's binade with gradual underflow, no p-bit value closer, at most half an ulp, "
-                  "ties to even, overflow rule), total over all digit strings and exponents, exact on representable "
-                  "values and monotone. Rust's parse::<f64> / `as f32` are compared bit for bit with that reference and "
-                  "with an independent big-integer oracle on every run; literals are also compiled to HLSL and re-read "
-                  "(no open finding).",
-    "rule": "requests = (flags, UTF-8 text) lexed token by token with the real TokenStream (and read_to_end, and unlex); "
-            "every fixed spelling of every token kind alone, ordered pairs of operators/trivia/odd bytes glued, random "
-            "token soups of 1-10 items with arbitrary trivia, both line endings and splices, and a numeric stream "
-            "(integers of 3 bases up to 25 digits with 13 suffix spellings, boundary biased; decimal floats up to 20+ "
-            "significant digits, exponents -330..310 and far beyond, biased to halfway points, subnormals, overflow; "
-            "plus a dense fast-path boundary family: 15/16/17 digits around 2^53, 2^24*10^k, 10^15, 10^16, odd last digits, "
-            "decimal scales -25..25, every whole/fraction split); "
-            "non-trivial = at least three tokens or a numeric literal",
+                  "debug or release builds. Multi-file: for a SourceManager holding any files before and after, every "
+                  "token location and every lexer diagnostic of a file decodes to that file itself at an offset <= its "
+                  "size and is printed with its name and its own line/column (multi_file_spans_in_file, "
+                  "multi_file_error_in_file; entry, included, <define> and <scratch space> files alike). Integer "
+                  "literals (full): an accepted literal denotes exactly the positional value of its maximal digit run, "
+                  "which fits the payload type; a run >= 2^64, or >= 2^63 with suffix l, or >= 2^32 with suffix u, is "
+                  "rejected with IntegerLiteralTooLarge at its first digit, and only then. Float literals (full): token "
+                  "bits = narrowOnce(suffix, nearest64(decimal text)), and nearest64 / nearestRat (exact Nat arithmetic) "
+                  "are proved to be IEEE 754 round-to-nearest-ties-to-even, total, exact on representable values and "
+                  "monotone. Output (full, one stated assumption): format_literal is modelled arm by arm (arms, guards, "
+                  "format strings, write_infinity_*, generate_literal of both generators and parse_literal re-extracted "
+                  "every run); the printed text of an integer literal lexes back to the same kind and value "
+                  "(emit_int_exact); of a finite float of any kind to the same kind and bits (emit_value_exact) assuming "
+                  "only that Rust's Display writes plain decimal digits, a '.' exactly for non-integers, whose nearest "
+                  "double (narrowed once for f/h) is the value; whole values up to 2^63 (printed through `as i64`) and "
+                  "+inf (1.#INF) need no assumption (emit_whole_value_exact, emit_infinity_exact). The assumption is "
+                  "checked bit for bit on every generated value and, in the thorough tier, on all 2^31 non-negative "
+                  "singles: it fails for exactly one single, 0x15ae43fd (negation witness "
+                  "emit_f32_double_rounding_witness; known finding). Rust's parse::<f64> / `as f32` are compared bit "
+                  "for bit with the reference and with an independent big-integer oracle on every run.",
+    "rule": "requests = (flags, UTF-8 text) lexed token by token with the real TokenStream (and read_to_end, and unlex, and "
+            "the diagnostic printed through MessagePrinter); every fixed spelling of every token kind alone, ordered pairs "
+            "of operators/trivia/odd bytes glued, random token soups of 1-10 items with arbitrary trivia, both line "
+            "endings and splices, every decimal exponent -345..325 in every spelling of the exponent part, and a numeric "
+            "stream (integers of 3 bases up to 25 digits with 13 suffix spellings, boundary biased; decimal floats up to "
+            "20+ significant digits, exponents -330..310 and far beyond, biased to halfway points, subnormals, overflow; "
+            "a dense fast-path boundary family); C10.emit: literals (random bit patterns of every float kind spelled "
+            "exactly, all integer spellings) x targets dx/vk/msl x 14 contexts (statement, unary minus, typed "
+            "initialisers, array size, enum value, enum cast, template argument, macro from an included file, define "
+            "passed to compile, ## paste) through rssl::compile, printed literal re-read by an exact reference; C10.fmt: "
+            "rssl_formatter on an AST literal of random bits (8 kinds x 2 targets, both signs, infinities, whole values "
+            "around 2^63, subnormals), printed text lexed by the real lexer, model-compared; C10.sweep32: Display of "
+            "every 61st (thorough: every) single read back through the double; C10.pp: generated 1-3 file programs with "
+            "defines, object/function macros, ## pastes, conditionals, #pragma once through the real preprocessor: every "
+            "token's span decodes to one file, is a token of that file's own tiling, a probe diagnostic at both ends "
+            "renders inside the file; C10.loc: the location decoder on those managers (model-compared); C10.diag: "
+            "programs with one injected error at one of 12 slots (entry file, two headers, macro bodies, define, paste) "
+            "x 7 error kinds through preprocess+parse+type check: every printed position inside a loaded file; "
+            "non-trivial = at least three tokens or a numeric literal (lex), a printed literal (emit/fmt), tokens from "
+            "two or more files (pp), a located diagnostic (diag)",
     "trusted_base": [
         "Lean 4.33 kernel; axioms propext / Classical.choice / Quot.sound only (audited by #print axioms)",
         "tools/gens/c10.py (LexTables: Token variants, is_whitespace, LexerErrorReason, any_word arms, choose lists, "
@@ -144,9 +195,23 @@ SPEC = {
         "Rust str::parse::<f64> and `f64 as f32` are trusted to be correctly rounded; the run compares them bit for bit "
         "with Spec/Dec2Bin.lean (exact Nat arithmetic) and with the harness' independent big-integer bisection",
         "Spec/Dec2Bin.lean and Spec/Lexer.lean: our reading of 'nearest double' and 'spans tile the file'",
+        "tools/gens/c10.py LitFormatTables (arms of format_literal, write_infinity_*, generate_literal hlsl/msl, "
+        "parse_literal) pinned by literal_tables_as_modelled; hand-written Model/LitFormat.lean mirrors format_literal "
+        "and is compared with rssl_formatter on every C10.fmt case",
+        "Model/SourceMap.lean + Gen.SourceMapTables (C14's model of text/src/location.rs), compared with the real "
+        "SourceManager on every C10.loc case",
+        "Rust's Display for f64/f32 (shortest round-trip digits): the hypothesis of emit_value_exact, checked bit for bit "
+        "by the harness (plain digits, '.' iff fractional, value read back directly and through the double) — exhaustive "
+        "over all singles in the thorough tier",
     ],
     "assumptions": [
         "files are shorter than 2^32 bytes (SourceManager::add_file asserts it), so `as u32` on offsets is exact",
         "the input is valid UTF-8 (TokenStream::new takes &str)",
+        "output clause: the emitted text is read with the literal grammar of rssl itself (nearest double, narrowed once "
+        "for f/h); what DXC or the Metal compiler make of a literal is outside the property; MSL names INFINITY / FLT_MAX "
+        "stand for their values",
+        "literals that the typer converts (an untyped literal initialising a float, an int literal outside int as a "
+        "template argument) are compared after that conversion (C13's domain); NaN and i64::MIN have no literal and are "
+        "not reachable from source",
     ],
 }
